@@ -486,7 +486,7 @@ def jobs(tier: str):
             out.append(dict(name=f"small/{iface}/{recipe}/status", kind="small", iface=iface, recipe=recipe, what="status", fault=True, weight=70))
             for n in range(0, b["text_chars"] + 1):
                 out.append(dict(name=f"small/{iface}/{recipe}/header{n}", kind="small", iface=iface, recipe=recipe, what="header", n=n, fault=(n == 1)))
-            for n in range(0, b["text_chars"] + 1):
+            for n in range(0, min(2, b["text_chars"]) + 1):  # 3 quoted cookie characters exhaust the class-correct placeholder pool (C13/C16 go to 4)
                 out.append(dict(name=f"small/{iface}/{recipe}/cookie{n}", kind="small", iface=iface, recipe=recipe, what="cookie", n=n, weight=5 ** n))
         for n in range(0, b["text_chars"] + 1):
             out.append(dict(name=f"small/{iface}/text-bytes/body{n}", kind="small", iface=iface, recipe="text-bytes", what="body", n=n, fault=True))
